@@ -1,7 +1,1347 @@
 /-
-  Property C14 — theorems about QEModel.C14 (stub; to be filled in).
+  Property C14 — game objects keep one consistent payoff convention across all views.
+  Theorems about the definitions of `QEModel/C14.lean` (the ones `qedriver_c14` executes).
+
+  Conventions: a game `g` is well formed for the action counts `nums` (`Game.WF g nums`) when
+  player `i`'s array has shape `nums[i:] + nums[:i]` and as many cells as that shape says.
+  A profile is in bounds when `inBounds nums prof`.
 -/
-import QEModel.C14
+import QEProofs.Lemmas.C14Expect
+import QEProofs.Lemmas.C14Rot
+import QEProofs.Lemmas.C14Round
+import QEProofs.Lemmas.C14Dual
+import QEProofs.Lemmas.C14Sum
+import QEProofs.Lemmas.C14Delete
+import QEProofs.Lemmas.C14Order
+import QEProofs.Lemmas.C14Gam
 namespace QE.C14
+
+variable {α : Type} [Zero α]
+
+/-- well-formed game: what `NormalFormGame.__init__` establishes -/
+structure Game.WF (g : Game α) (nums : List Nat) : Prop where
+  len : g.players.length = nums.length
+  shape : ∀ i, i < nums.length → (g.player i).shape = rotL i nums
+  size : ∀ i, i < nums.length → (g.player i).data.length = prod (g.player i).shape
+
+/-- a concrete 2×3 game used for the non-vacuity examples: `u(a,b) = (10a+b, 100+10a+b)` -/
+def exGame : Game Int :=
+  ⟨[⟨[2, 3], [0, 1, 2, 10, 11, 12]⟩, ⟨[3, 2], [100, 110, 101, 111, 102, 112]⟩]⟩
+
+theorem exGame_WF : exGame.WF [2, 3] := ⟨rfl, by decide, by decide⟩
+
+/-! ## T1 views_agree -/
+
+theorem getItem_getD (g : Game α) (prof : List Nat) (i : Nat) (hi : i < g.N) :
+    (g.getItem prof).getD i 0 = (g.player i).get (rotL i prof) := by
+  simp [Game.getItem, List.getD_eq_getElem?_getD, List.getElem?_map, List.getElem?_range hi]
+
+/-- **One convention, three views.** For every number of players, every in-bounds profile and
+    every player `i`: the entry of `payoff_profile_array` at `(profile, i)`, the `i`-th entry of
+    `g[profile]`, and `players[i].payoff_array` read at the profile rotated so that `i`'s own
+    action comes first, are the same cell. -/
+theorem views_agree (g : Game α) (nums prof : List Nat) (i : Nat) (hg : g.WF nums)
+    (hp : inBounds nums prof = true) (hi : i < nums.length) :
+    g.profileArray.get (prof ++ [i]) = (g.player i).get (rotL i prof) ∧
+    (g.getItem prof).getD i 0 = (g.player i).get (rotL i prof) := by
+  have hN : g.N = nums.length := hg.len
+  refine ⟨?_, getItem_getD g prof i (by rw [hN]; exact hi)⟩
+  have hpl : prof.length = nums.length := inBounds_length _ _ hp
+  have hs0 : (g.player 0).shape = nums := by rw [hg.shape 0 (by omega), rotL_zero]
+  unfold Game.profileArray
+  rw [get_tab _ _ _ (by
+    rw [hs0, hN]; exact inBounds_append _ _ _ _ hp (inBounds_single _ _ hi))]
+  simp only [List.getLastD_concat, List.dropLast_concat]
+  have : ((List.range g.N).map fun i => (g.player i).transpose (rotPerm g.N (g.N - i))).getD i default
+      = (g.player i).transpose (rotPerm g.N (g.N - i)) := by
+    simp [List.getD_eq_getElem?_getD, List.getElem?_map, List.getElem?_range (show i < g.N by omega)]
+  rw [this, hN]
+  unfold Arr.transpose
+  have hsh : (rotPerm nums.length (nums.length - i)).map (fun k => (g.player i).shape.getD k 0) = nums := by
+    rw [map_getD_rotPerm _ _ _ (by omega) (by rw [hg.shape i hi, length_rotL]), hg.shape i hi]
+    exact rotL_rotL i _ nums (by omega) (by omega) (by omega)
+  rw [hsh, get_tab _ _ _ hp, srcIndex_rotPerm _ _ _ (by omega) hpl]
+  congr 2
+  omega
+
+example : exGame.profileArray.get ([1, 2] ++ [1]) = 112 ∧ (exGame.getItem [1, 2]).getD 1 0 = 112 := by
+  decide
+
+/-! ## T1 set / get -/
+
+theorem setItem_N (g : Game α) (prof : List Nat) (vals : List α) : (g.setItem prof vals).N = g.N := by
+  simp [Game.setItem, Game.N]
+
+theorem setItem_player (g : Game α) (prof : List Nat) (vals : List α) (i : Nat) (hi : i < g.N) :
+    (g.setItem prof vals).player i =
+      ⟨(g.player i).shape,
+       (g.player i).data.set (flatIndex (g.player i).shape (rotL i prof)) (vals.getD i 0)⟩ := by
+  simp [Game.setItem, Game.player, List.getD_eq_getElem?_getD, List.getElem?_map,
+    List.getElem?_range hi]
+
+/-- `__setitem__` keeps the game well formed -/
+theorem setItem_WF (g : Game α) (nums prof : List Nat) (vals : List α) (hg : g.WF nums) :
+    (g.setItem prof vals).WF nums := by
+  have hN : g.N = nums.length := hg.len
+  refine ⟨by rw [← hg.len]; exact setItem_N g prof vals, ?_, ?_⟩
+  · intro i hi
+    rw [setItem_player g prof vals i (by omega)]
+    exact hg.shape i hi
+  · intro i hi
+    rw [setItem_player g prof vals i (by omega)]
+    simp only [List.length_set]
+    exact hg.size i hi
+
+/-- **set then get.** After `g[prof] = vals`, `g[prof]` is `vals` (for every player). -/
+theorem set_get (g : Game α) (nums prof : List Nat) (vals : List α) (i : Nat) (hg : g.WF nums)
+    (hp : inBounds nums prof = true) (hi : i < nums.length) :
+    ((g.setItem prof vals).getItem prof).getD i 0 = vals.getD i 0 := by
+  have hN : g.N = nums.length := hg.len
+  rw [getItem_getD _ _ _ (by rw [setItem_N]; omega), setItem_player g prof vals i (by omega)]
+  unfold Arr.get
+  simp only
+  have hb : inBounds (g.player i).shape (rotL i prof) = true := by
+    rw [hg.shape i hi]; exact inBounds_rotL i nums prof (by omega) hp
+  have hlt := flatIndex_lt _ _ hb
+  rw [← hg.size i hi] at hlt
+  rw [List.getD_eq_getElem?_getD, List.getElem?_set_self hlt]
+  rfl
+
+theorem flatIndex_inj (s a b : List Nat) (ha : inBounds s a = true) (hb : inBounds s b = true)
+    (h : flatIndex s a = flatIndex s b) : a = b := by
+  have h1 := allIdx_flatIndex s a ha
+  have h2 := allIdx_flatIndex s b hb
+  rw [h, h2] at h1
+  exact (Option.some.inj h1).symm
+
+theorem rotL_inj (i : Nat) (a b : List Nat) (hi : i ≤ a.length) (hl : a.length = b.length)
+    (h : rotL i a = rotL i b) : a = b := by
+  have e1 := rotL_rotL i (a.length - i) a hi (by omega) (by omega)
+  have e2 := rotL_rotL i (b.length - i) b (by omega) (by omega) (by omega)
+  rw [← e1, ← e2, h, hl]
+
+/-- **set leaves every other profile alone.** After `g[prof] = vals`, every other in-bounds
+    profile reads as before, for every player (no aliasing between cells or players). -/
+theorem set_other_unchanged (g : Game α) (nums prof prof' : List Nat) (vals : List α) (i : Nat)
+    (hg : g.WF nums) (hp : inBounds nums prof = true) (hp' : inBounds nums prof' = true)
+    (hne : prof' ≠ prof) (hi : i < nums.length) :
+    ((g.setItem prof vals).getItem prof').getD i 0 = (g.getItem prof').getD i 0 := by
+  have hN : g.N = nums.length := hg.len
+  rw [getItem_getD _ _ _ (by rw [setItem_N]; omega), getItem_getD _ _ _ (by omega),
+    setItem_player g prof vals i (by omega)]
+  unfold Arr.get
+  simp only
+  have hb : inBounds (g.player i).shape (rotL i prof) = true := by
+    rw [hg.shape i hi]; exact inBounds_rotL i nums prof (by omega) hp
+  have hb' : inBounds (g.player i).shape (rotL i prof') = true := by
+    rw [hg.shape i hi]; exact inBounds_rotL i nums prof' (by omega) hp'
+  have hl := inBounds_length _ _ hp
+  have hl' := inBounds_length _ _ hp'
+  have hk : flatIndex (g.player i).shape (rotL i prof) ≠ flatIndex (g.player i).shape (rotL i prof') := by
+    intro h
+    have := flatIndex_inj _ _ _ hb hb' h
+    exact hne (rotL_inj i prof' prof (by omega) (by omega) this.symm)
+  rw [List.getD_eq_getElem?_getD, List.getElem?_set_ne hk, ← List.getD_eq_getElem?_getD]
+
+example : ((exGame.setItem [1, 2] [7, 8]).getItem [1, 2]) = [7, 8] ∧
+    ((exGame.setItem [1, 2] [7, 8]).getItem [0, 2]) = exGame.getItem [0, 2] := by decide
+
+/-! ## T1 reconstruction round trips -/
+
+omit [Zero α] in
+theorem players_eq (g : Game α) : g.players = (List.range g.N).map g.player := by
+  apply List.ext_getElem
+  · simp [Game.N]
+  · intro i h1 h2
+    simp [Game.player, List.getD_eq_getElem?_getD, List.getElem?_eq_getElem h1]
+
+theorem profileArray_shape (g : Game α) (nums : List Nat) (hg : g.WF nums) (hN : 0 < nums.length) :
+    g.profileArray.shape = nums ++ [nums.length] := by
+  show (g.player 0).shape ++ [g.N] = _
+  rw [hg.shape 0 hN, rotL_zero, show g.N = nums.length from hg.len]
+
+/-- **from_profile_array_roundtrip.** Splitting `payoff_profile_array` back into Players
+    (`NormalFormGame(g.payoff_profile_array)`) gives the same game, array for array. -/
+theorem from_profile_array_roundtrip (g : Game α) (nums : List Nat) (hg : g.WF nums)
+    (hN : 0 < nums.length) : Game.ofProfileArray g.profileArray = .ok g := by
+  have hsh := profileArray_shape g nums hg hN
+  unfold Game.ofProfileArray
+  simp only [hsh, List.length_append, List.length_cons, List.length_nil, Nat.add_sub_cancel,
+    List.getLastD_concat, bne_self_eq_false, Bool.false_eq_true, if_false]
+  congr 1
+  cases g with
+  | mk players =>
+    congr 1
+    refine Eq.trans ?_ (players_eq ⟨players⟩).symm
+    have hlen : (Game.mk players).N = nums.length := hg.len
+    rw [hlen]
+    apply List.map_congr_left
+    intro i hi
+    have hi' : i < nums.length := by simpa using hi
+    apply transpose_fwd ((Game.mk players).player i) _ nums i (by omega) (hg.shape i hi') (hg.size i hi')
+    · show (Game.mk players).profileArray.shape.dropLast = nums
+      rw [hsh]; simp
+    · intro idx hp
+      show (Arr.tab (Game.mk players).profileArray.shape.dropLast _).get idx = _
+      rw [hsh, List.dropLast_concat, get_tab _ _ _ hp]
+      exact (views_agree _ nums idx i hg hp hi').1
+
+omit [Zero α] in
+/-- `NormalFormGame(g.players)` accepts a well-formed game and is the same game -/
+theorem from_players_roundtrip (g : Game α) (nums : List Nat) (hg : g.WF nums) :
+    Game.ofPlayers g.players = .ok g := by
+  unfold Game.ofPlayers
+  have hall : ((List.range g.players.length).all fun i =>
+      i == 0 || (((g.players.getD i default).shape.length == g.players.length) &&
+                 ((g.players.getD i default).shape == rotL i (g.players.headD default).shape))) = true := by
+    rw [List.all_eq_true]
+    intro i hi
+    have hi' : i < nums.length := by rw [← hg.len]; simpa using hi
+    have h0 : (g.players.headD default).shape = nums := by
+      have := hg.shape 0 (by omega)
+      rw [rotL_zero] at this
+      rw [← this]
+      simp [Game.player, List.headD_eq_head?_getD, List.getD_eq_getElem?_getD, List.head?_eq_getElem?]
+    have hsi : (g.players.getD i default).shape = rotL i nums := hg.shape i hi'
+    rw [hsi, h0]
+    simp [length_rotL, hg.len]
+  rw [if_pos hall]
+
+example : Game.ofProfileArray exGame.profileArray = .ok exGame ∧ Game.ofPlayers exGame.players = .ok exGame := by
+  decide
+
+/-- **gam_roundtrip_tokens.** Reading back the numbers written by the GAM writer (player by
+    player, the common-order array in Fortran order) rebuilds the same game, array for array —
+    for every number of players and every action counts (index order only; the decimal text of
+    each number is outside the model). -/
+theorem gam_roundtrip_tokens (g : Game α) (nums : List Nat) (hg : g.WF nums)
+    (hN : 0 < nums.length) (hpos : prod nums ≠ 0) :
+    parseGam nums (gamPayoffs g).flatten = .ok g := by
+  have hlen : g.N = nums.length := hg.len
+  have hT : ∀ i, i < nums.length →
+      ((g.player i).transpose (rotPerm g.N (g.N - i))).shape = nums ∧
+      ∀ idx, inBounds nums idx = true →
+        ((g.player i).transpose (rotPerm g.N (g.N - i))).get idx = (g.player i).get (rotL i idx) := by
+    intro i hi
+    rw [hlen]
+    exact transpose_back (g.player i) nums i (by omega) (hg.shape i hi)
+  have hL : ∀ l ∈ gamPayoffs g, l.length = prod nums := by
+    intro l hl
+    simp only [gamPayoffs, List.mem_map, List.mem_range] at hl
+    obtain ⟨i, hi, rfl⟩ := hl
+    rw [length_ravelF, (hT i (by omega)).1]
+  have hLlen : (gamPayoffs g).length = nums.length := by simp [gamPayoffs, hlen]
+  have hflat : (gamPayoffs g).flatten.length = nums.length * prod nums := by
+    rw [length_flatten_const _ _ hL, hLlen]
+  have hps : ((List.range nums.length).map fun i =>
+      (Arr.reshapeF (((gamPayoffs g).flatten.drop (i * prod nums)).take (prod nums)) nums).transpose
+        (rotPerm nums.length i)) = g.players := by
+    rw [players_eq g, hlen]
+    apply List.map_congr_left
+    intro i hi
+    have hi' : i < nums.length := by simpa using hi
+    have hb := flatten_block _ _ i hL (by omega)
+    have hb2 : (gamPayoffs g)[i]? = some ((g.player i).transpose (rotPerm g.N (g.N - i))).ravelF := by
+      simp [gamPayoffs, List.getElem?_map, List.getElem?_range (show i < g.N by omega)]
+    rw [hb2] at hb
+    rw [← Option.some.inj hb]
+    obtain ⟨hs, hget⟩ := hT i hi'
+    have hr := reshapeF_ravelF ((g.player i).transpose (rotPerm g.N (g.N - i)))
+    rw [hs] at hr
+    rw [hr]
+    apply transpose_fwd (g.player i) _ nums i (by omega) (hg.shape i hi') (hg.size i hi') rfl
+    intro idx hp
+    rw [get_tab _ _ _ hp]
+    exact hget idx hp
+  have hall : g.players.all Game.playerOk = true := by
+    rw [players_eq g, List.all_eq_true]
+    intro A hA
+    simp only [List.mem_map, List.mem_range] at hA
+    obtain ⟨i, hi, rfl⟩ := hA
+    have hs := hg.shape i (by omega)
+    simp only [Game.playerOk, hs, length_rotL, prod_rotL, Bool.and_eq_true, bne_iff_ne, ne_eq]
+    exact ⟨by omega, hpos⟩
+  unfold parseGam
+  simp only [hflat, bne_self_eq_false, Bool.false_eq_true, if_false, hps, hall, if_true]
+  exact from_players_roundtrip g nums hg
+
+example : parseGam [2, 3] (gamPayoffs exGame).flatten = .ok exGame ∧
+    gamPayoffs exGame = [[0, 10, 1, 11, 2, 12], [100, 110, 101, 111, 102, 112]] := by decide
+
+/-- **Order of the numbers the GAM writer emits.** In player `i`'s block, the number at the
+    Fortran offset of a profile (first player's action fastest) is player `i`'s payoff at that
+    profile; every block has `∏ nums` numbers. -/
+theorem gam_write_order (g : Game α) (nums prof : List Nat) (i : Nat) (hg : g.WF nums)
+    (hp : inBounds nums prof = true) (hi : i < nums.length) :
+    ((gamPayoffs g).getD i []).getD (flatIndex nums.reverse prof.reverse) 0 = (g.getItem prof).getD i 0 ∧
+    ((gamPayoffs g).getD i []).length = prod nums := by
+  have hlen : g.N = nums.length := hg.len
+  have hT := transpose_back (g.player i) nums i (by omega) (hg.shape i hi)
+  have hblock : (gamPayoffs g).getD i [] = ((g.player i).transpose (rotPerm g.N (g.N - i))).ravelF := by
+    simp [gamPayoffs, List.getD_eq_getElem?_getD, List.getElem?_map, List.getElem?_range (show i < g.N by omega)]
+  rw [hblock, hlen, length_ravelF, hT.1]
+  refine ⟨?_, rfl⟩
+  rw [getItem_getD _ _ _ (by omega)]
+  unfold Arr.ravelF
+  rw [hT.1, List.getD_eq_getElem?_getD, List.getElem?_map,
+    allIdx_flatIndex _ _ (inBounds_reverse _ _ hp)]
+  simp only [Option.map_some, Option.getD_some, List.reverse_reverse]
+  exact hT.2 prof hp
+
+example : ((gamPayoffs exGame).getD 1 []).getD (flatIndex [3, 2] [2, 1]) 0 = (exGame.getItem [1, 2]).getD 1 0 := by
+  decide
+
+/-! ## T1 constructors: the game built from data shows that data in every view -/
+
+theorem mk_player (ps : List (Arr α)) (i : Nat) (f : Nat → Arr α) (n : Nat) (hi : i < n)
+    (hps : ps = (List.range n).map f) : (Game.mk ps).player i = f i := by
+  subst hps
+  simp [Game.player, List.getD_eq_getElem?_getD, List.getElem?_map, List.getElem?_range hi]
+
+/-- **Construction from a payoff profile array.** `NormalFormGame(D)` for `D` of shape
+    `nums ++ [N]` succeeds, is well formed, and `g[profile][i] = D[profile, i]` for every
+    in-bounds profile and player (so, by `views_agree`, every view shows `D`). -/
+theorem from_profile_array_views (D : Arr α) (nums : List Nat) (hN : 0 < nums.length)
+    (hD : D.shape = nums ++ [nums.length]) :
+    ∃ g, Game.ofProfileArray D = .ok g ∧ g.WF nums ∧
+      ∀ prof i, inBounds nums prof = true → i < nums.length →
+        (g.getItem prof).getD i 0 = D.get (prof ++ [i]) := by
+  have hsh : ∀ i, i ≤ nums.length →
+      ((D.takeLast i).transpose (rotPerm nums.length i)).shape = rotL i nums := by
+    intro i hi
+    show (rotPerm nums.length i).map (fun k => (D.takeLast i).shape.getD k 0) = _
+    have : (D.takeLast i).shape = nums := by
+      show D.shape.dropLast = nums
+      rw [hD]; simp
+    rw [this, map_getD_rotPerm _ _ _ hi rfl]
+  refine ⟨⟨(List.range nums.length).map fun i => (D.takeLast i).transpose (rotPerm nums.length i)⟩, ?_, ?_, ?_⟩
+  · unfold Game.ofProfileArray
+    simp only [hD, List.length_append, List.length_cons, List.length_nil, Nat.add_sub_cancel,
+      List.getLastD_concat, bne_self_eq_false, Bool.false_eq_true, if_false]
+  · refine ⟨by simp, ?_, ?_⟩
+    · intro i hi
+      rw [mk_player _ i _ nums.length hi rfl]
+      exact hsh i (by omega)
+    · intro i hi
+      rw [mk_player _ i _ nums.length hi rfl]
+      exact tab_size _ _
+  · intro prof i hp hi
+    have hl := inBounds_length _ _ hp
+    rw [getItem_getD _ _ _ (by simpa [Game.N] using hi), mk_player _ i _ nums.length hi rfl]
+    have hshape : (rotPerm nums.length i).map (fun k => (D.takeLast i).shape.getD k 0) = rotL i nums :=
+      hsh i (by omega)
+    unfold Arr.transpose
+    rw [hshape, get_tab _ _ _ (inBounds_rotL i nums prof (by omega) hp),
+      srcIndex_rotPerm _ _ _ (by omega) (by rw [length_rotL]; exact hl),
+      rotL_rotL i _ prof (by omega) (by omega) (by omega)]
+    show (Arr.tab D.shape.dropLast _).get prof = _
+    rw [hD, List.dropLast_concat, get_tab _ _ _ hp]
+
+/-- **Construction from GAM numbers.** `from_gam` on `N`, `nums` and `N·∏nums` numbers succeeds
+    (every player having at least one action), is well formed, and player `i`'s payoff at a
+    profile is number `i·∏nums + (Fortran offset of the profile)` of the file: within a player's
+    block the first player's action varies fastest. -/
+theorem parse_gam_views (nums : List Nat) (payoffs : List α) (hN : 0 < nums.length)
+    (hpos : prod nums ≠ 0) (hlen : payoffs.length = nums.length * prod nums) :
+    ∃ g, parseGam nums payoffs = .ok g ∧ g.WF nums ∧
+      ∀ prof i, inBounds nums prof = true → i < nums.length →
+        (g.getItem prof).getD i 0 =
+          payoffs.getD (i * prod nums + flatIndex nums.reverse prof.reverse) 0 := by
+  let P : Nat → Arr α := fun i =>
+    (Arr.reshapeF ((payoffs.drop (i * prod nums)).take (prod nums)) nums).transpose (rotPerm nums.length i)
+  have hsh : ∀ i, i ≤ nums.length → (P i).shape = rotL i nums := by
+    intro i hi
+    show (rotPerm nums.length i).map (fun k => nums.getD k 0) = _
+    exact map_getD_rotPerm _ _ _ hi rfl
+  have hWF : (Game.mk ((List.range nums.length).map P)).WF nums := by
+    refine ⟨by simp, ?_, ?_⟩
+    · intro i hi
+      rw [mk_player _ i _ nums.length hi rfl]; exact hsh i (by omega)
+    · intro i hi
+      rw [mk_player _ i _ nums.length hi rfl]; exact tab_size _ _
+  have hall : ((List.range nums.length).map P).all Game.playerOk = true := by
+    rw [List.all_eq_true]
+    intro A hA
+    simp only [List.mem_map, List.mem_range] at hA
+    obtain ⟨i, hi, rfl⟩ := hA
+    simp only [Game.playerOk, hsh i (by omega), length_rotL, prod_rotL, Bool.and_eq_true, bne_iff_ne, ne_eq]
+    exact ⟨by omega, hpos⟩
+  refine ⟨⟨(List.range nums.length).map P⟩, ?_, hWF, ?_⟩
+  · unfold parseGam
+    simp only [hlen, bne_self_eq_false, Bool.false_eq_true, if_false]
+    rw [if_pos hall]
+    exact from_players_roundtrip _ _ hWF
+  · intro prof i hp hi
+    have hl := inBounds_length _ _ hp
+    rw [getItem_getD _ _ _ (by simpa [Game.N] using hi), mk_player _ i _ nums.length hi rfl]
+    have hshape : (rotPerm nums.length i).map (fun k =>
+        (Arr.reshapeF ((payoffs.drop (i * prod nums)).take (prod nums)) nums).shape.getD k 0) = rotL i nums :=
+      hsh i (by omega)
+    show ((Arr.reshapeF _ nums).transpose _).get _ = _
+    unfold Arr.transpose
+    rw [hshape, get_tab _ _ _ (inBounds_rotL i nums prof (by omega) hp),
+      srcIndex_rotPerm _ _ _ (by omega) (by rw [length_rotL]; exact hl),
+      rotL_rotL i _ prof (by omega) (by omega) (by omega)]
+    unfold Arr.reshapeF
+    rw [get_tab _ _ _ hp]
+    have hlt : flatIndex nums.reverse prof.reverse < prod nums := by
+      have := flatIndex_lt _ _ (inBounds_reverse _ _ hp)
+      rwa [prod_reverse] at this
+    rw [List.getD_eq_getElem?_getD, List.getElem?_take, if_pos hlt, List.getElem?_drop,
+      ← List.getD_eq_getElem?_getD]
+
+example : ∃ g, parseGam [3, 2] ([3, 2, 0, 3, 5, 6, 3, 2, 3, 2, 6, 1] : List Int) = .ok g ∧
+    g.getItem [1, 1] = [5, 6] ∧ g.getItem [2, 0] = [0, 3] := ⟨_, rfl, by decide, by decide⟩
+
+/-- `NormalFormGame(nums)` (all-zero payoffs) is well formed and reads 0 everywhere -/
+theorem zeros_views (nums : List Nat) :
+    (Game.zeros nums : Game α).WF nums ∧
+    ∀ prof i, inBounds nums prof = true → i < nums.length →
+      ((Game.zeros nums : Game α).getItem prof).getD i 0 = 0 := by
+  refine ⟨⟨by simp [Game.zeros], ?_, ?_⟩, ?_⟩
+  · intro i hi; rw [show (Game.zeros nums : Game α) = ⟨_⟩ from rfl, mk_player _ i _ nums.length hi rfl]; rfl
+  · intro i hi; rw [show (Game.zeros nums : Game α) = ⟨_⟩ from rfl, mk_player _ i _ nums.length hi rfl]
+    exact tab_size _ _
+  · intro prof i hp hi
+    rw [getItem_getD _ _ _ (by simpa [Game.zeros, Game.N] using hi),
+      show (Game.zeros nums : Game α) = ⟨_⟩ from rfl, mk_player _ i _ nums.length hi rfl,
+      get_tab _ _ _ (inBounds_rotL i nums prof (by omega) hp)]
+
+/-- **Symmetric two-player game from a square matrix** `M`: both players own (a copy of) `M`;
+    `g[a, b] = (M[a, b], M[b, a])`. -/
+theorem square_views (M : Arr α) (n : Nat) (hM : M.shape = [n, n]) (hsz : M.data.length = prod M.shape) :
+    ∃ g, Game.ofSquare M = .ok g ∧ g.WF [n, n] ∧
+      ∀ a b, (g.getItem [a, b]) = [M.get [a, b], M.get [b, a]] := by
+  refine ⟨⟨[M, M]⟩, ?_, ⟨rfl, ?_, ?_⟩, ?_⟩
+  · unfold Game.ofSquare; simp [hM]
+  · intro i hi
+    have : i = 0 ∨ i = 1 := by simp at hi; omega
+    rcases this with rfl | rfl <;> simp [Game.player, hM, rotL]
+  · intro i hi
+    have : i = 0 ∨ i = 1 := by simp at hi; omega
+    rcases this with rfl | rfl <;> simpa [Game.player] using hsz
+  · intro a b
+    simp [Game.getItem, Game.N, Game.player, rotL, List.range_succ]
+
+/-! ## T1 delete_action -/
+
+theorem rotL_bump (p a i : Nat) (prof : List Nat) (hp : p < prof.length) (hi : i < prof.length) :
+    rotL i (Arr.bump p a prof) = Arr.bump (delAxis p prof.length i) a (rotL i prof) := by
+  unfold Arr.bump
+  rw [rotL_set prof p i _ hp hi]
+  have : (rotL i prof).getD (delAxis p prof.length i) 0 = prof.getD p 0 := by
+    rw [getD_rotL i prof 0 _ (by omega) (delAxis_lt p _ i hp hi), delAxis_mod p _ i hp hi]
+  rw [this]
+
+/-- **delete_action_views.** Deleting action `a` of player `p` (who keeps at least one action)
+    succeeds, yields a well-formed game with `nums[p]` decreased by one, and in *every* player's
+    array exactly the cells of the surviving profiles remain, in order: the new game at `prof`
+    reads the old game at `prof` with `prof[p]` shifted past `a`. (All `N`, all `p`, including the
+    players `i > p` whose axis `p - i` is negative.) -/
+theorem delete_action_views (g : Game α) (nums : List Nat) (p a : Nat) (hg : g.WF nums)
+    (hp : p < nums.length) (ha : a < nums.getD p 0) (h2 : 2 ≤ nums.getD p 0) (hpos : prod nums ≠ 0) :
+    ∃ g', g.deleteAction (p : Int) a = .ok g' ∧ g'.WF (nums.set p (nums.getD p 0 - 1)) ∧
+      ∀ prof i, inBounds (nums.set p (nums.getD p 0 - 1)) prof = true → i < nums.length →
+        (g'.getItem prof).getD i 0 = (g.getItem (Arr.bump p a prof)).getD i 0 := by
+  have hN : g.N = nums.length := hg.len
+  let B : Nat → Arr α := fun i => (g.player i).deleteAxis (delAxis p nums.length i) a
+  have hax : ∀ i, i < nums.length → (g.player i).shape.getD (delAxis p nums.length i) 0 = nums.getD p 0 := by
+    intro i hi
+    rw [hg.shape i hi, getD_rotL i nums 0 _ (by omega) (delAxis_lt p _ i hp hi), delAxis_mod p _ i hp hi]
+  have hBshape : ∀ i, i < nums.length → (B i).shape = rotL i (nums.set p (nums.getD p 0 - 1)) := by
+    intro i hi
+    show ((g.player i).shape.set _ _) = _
+    rw [hax i hi, hg.shape i hi, rotL_set nums p i _ hp hi]
+  have hWF : (Game.mk ((List.range nums.length).map B)).WF (nums.set p (nums.getD p 0 - 1)) := by
+    have hpl : ∀ i, i < nums.length → (Game.mk ((List.range nums.length).map B)).player i = B i := by
+      intro i hi
+      simp [Game.player, List.getD_eq_getElem?_getD, List.getElem?_map, List.getElem?_range hi]
+    refine ⟨by simp, ?_, ?_⟩
+    · intro i hi
+      have hi' : i < nums.length := by simpa using hi
+      rw [hpl i hi']; exact hBshape i hi'
+    · intro i hi
+      have hi' : i < nums.length := by simpa using hi
+      rw [hpl i hi']; exact tab_size _ _
+  have hmap : (List.range g.N).mapM (fun (i : Nat) =>
+      match Game.normAxis ((p : Int) - (i : Int)) (g.player i).shape.length with
+      | none => Except.error Err.axis
+      | some ax =>
+        if a < (g.player i).shape.getD ax 0 then
+          if Game.playerOk ((g.player i).deleteAxis ax a) then Except.ok ((g.player i).deleteAxis ax a)
+          else Except.error Err.value
+        else Except.error Err.index) = .ok ((List.range g.N).map B) := by
+    apply mapM_ok
+    intro i hi
+    have hi' : i < nums.length := by rw [← hN]; simpa using hi
+    have hl : (g.player i).shape.length = nums.length := by rw [hg.shape i hi', length_rotL]
+    simp only [hl, normAxis_sub p nums.length i hp hi', hax i hi', ha, if_true]
+    have hok : Game.playerOk ((g.player i).deleteAxis (delAxis p nums.length i) a) = true := by
+      have hs := hBshape i hi'
+      simp only [Game.playerOk, Bool.and_eq_true, bne_iff_ne, ne_eq]
+      show ¬ (B i).shape.length = 0 ∧ ¬ prod (B i).shape = 0
+      rw [hs, length_rotL, prod_rotL, List.length_set]
+      exact ⟨by omega, prod_set_ne_zero nums p _ hpos (by omega)⟩
+    rw [if_pos hok]
+  refine ⟨⟨(List.range nums.length).map B⟩, ?_, hWF, ?_⟩
+  · unfold Game.deleteAction
+    dsimp only
+    erw [hmap]
+    rw [hN]
+    exact from_players_roundtrip _ _ hWF
+  · intro prof i hb hi
+    have hpl : (Game.mk ((List.range nums.length).map B)).player i = B i := by
+      simp [Game.player, List.getD_eq_getElem?_getD, List.getElem?_map, List.getElem?_range hi]
+    have hlen : prof.length = nums.length := by rw [inBounds_length _ _ hb, List.length_set]
+    rw [getItem_getD _ _ _ (by simpa [Game.N] using hi), getItem_getD _ _ _ (by omega), hpl]
+    show ((g.player i).deleteAxis _ a).get _ = _
+    rw [deleteAxis_get _ _ _ _ (by
+      rw [hax i hi, hg.shape i hi, ← rotL_set nums p i _ hp hi]
+      exact inBounds_rotL i _ prof (by simp; omega) hb)]
+    rw [rotL_bump p a i prof (by omega) (by omega), hlen]
+
+example : ∃ g', exGame.deleteAction 1 1 = .ok g' ∧ g'.getItem [1, 1] = exGame.getItem [1, 2] ∧
+    g'.players.map (·.shape) = [[2, 2], [2, 2]] := ⟨_, rfl, by decide, by decide⟩
+
+/-- **`delete_action` with the one-element list `[a]` is `delete_action` with `a`** (same game or
+    same refusal), for every player index — the array_like form generalises the scalar one. -/
+theorem deleteActions_single (g : Game α) (pidx : Int) (a : Nat) :
+    g.deleteActions pidx [a] = g.deleteAction pidx a := by
+  unfold Game.deleteActions Game.deleteAction
+  dsimp only
+  congr 2
+  funext i
+  cases Game.normAxis (pidx - (i : Int)) (g.player i).shape.length with
+  | none => rfl
+  | some ax =>
+    simp only [List.all_cons, List.all_nil, Bool.and_true, decide_eq_true_eq]
+    by_cases h : a < (g.player i).shape.getD ax 0
+    · rw [if_pos h, if_pos h, deleteMany_single _ ax a h]
+    · rw [if_neg h, if_neg h]
+
+/-! ## T1 payoff_vector is the expected payoff -/
+
+section pv
+variable [Add α] [Mul α]
+
+/-- **payoff_vector is the expectation.** For a player's array of shape `n0 :: s` (own action
+    first, then the opponents in the player's cyclic order) and any opponents' actions `os`
+    (each pure or mixed, each fitting its axis), reducing the last axis repeatedly with
+    `take`/`dot` yields a vector of length `n0` whose entry `a` is the iterated expectation
+    `E_{b₁∼os₁} … E_{b_k∼os_k} A[a, b₁, …, b_k]` — for every number of opponents. -/
+theorem payoff_vector_is_expectation (A : Arr α) (n0 : Nat) (s : List Nat) (os : List (Act α))
+    (a : Nat) (hs : A.shape = n0 :: s) (hok : actsOk s os) (ha : a < n0) :
+    (payoffVector A os).shape = [n0] ∧
+    (payoffVector A os).get [a] = expect s os (fun r => A.get (a :: r)) :=
+  payoffVector_get n0 a ha s.length s os A rfl hs hok
+
+/-- against pure opponents the expectation is the cell itself -/
+theorem expect_pure : ∀ (s r : List Nat) (f : List Nat → α), r.length = s.length →
+    expect s (r.map Act.pure) f = f r
+  | [], [], _, _ => rfl
+  | [], _ :: _, _, h => by simp at h
+  | _ :: _, [], _, h => by simp at h
+  | _ :: s, b :: r, f, h => by
+    simp only [List.map_cons, expect, reduceFn]
+    exact expect_pure s r (fun r => f (b :: r)) (by simpa using h)
+
+omit [Zero α] [Add α] [Mul α] in
+theorem actsOk_pure : ∀ (s r : List Nat), inBounds s r = true → actsOk (α := α) s (r.map Act.pure)
+  | [], [], _ => trivial
+  | [], _ :: _, h => by simp [inBounds] at h
+  | _ :: _, [], h => by simp [inBounds] at h
+  | n :: s, b :: r, h => by
+    simp only [inBounds, Bool.and_eq_true, decide_eq_true_eq] at h
+    simp only [List.map_cons, actsOk, actOk, h.1, if_true, true_and]
+    exact actsOk_pure s r h.2
+
+/-- **pure opponents.** `payoff_vector` against a pure opponent profile `r` is the column of the
+    player's array at `r`: entry `a` is `payoff_array[a, r…]`. -/
+theorem payoff_vector_pure (A : Arr α) (n0 : Nat) (s r : List Nat) (a : Nat)
+    (hs : A.shape = n0 :: s) (hr : inBounds s r = true) (ha : a < n0) :
+    (payoffVector A (r.map Act.pure)).get [a] = A.get (a :: r) := by
+  rw [(payoff_vector_is_expectation A n0 s _ a hs (actsOk_pure s r hr) ha).2,
+    expect_pure s r _ (inBounds_length s r hr)]
+
+/-- the checked `payoff_vector` raises nothing on fitting actions and is then the unchecked one
+    (the error paths of the driver are not what makes the theorems above true) -/
+theorem payoffVectorC_ok : ∀ (os : List (Act α)) (s pre : List Nat) (A : Arr α),
+    A.shape = pre ++ s → actsOk s os →
+    payoffVectorC A os = .ok (payoffVector A os) ∧ (payoffVector A os).shape = pre
+  | [], [], pre, A, hs, _ => ⟨rfl, by simpa [payoffVector] using hs⟩
+  | [], _ :: _, _, _, _, h => by simp [actsOk] at h
+  | _ :: _, [], _, _, _, h => by simp [actsOk] at h
+  | σ :: os, m :: s, pre, A, hs, h => by
+    simp only [actsOk] at h
+    have ih := payoffVectorC_ok os s (pre ++ [m]) A (by simpa using hs) h.2
+    have hlast : (payoffVector A os).shape.getLastD 0 = m := by rw [ih.2]; simp
+    constructor
+    · show (do
+          let B ← payoffVectorC A os
+          match actOk (B.shape.getLastD 0) σ with
+          | some e => throw e
+          | none => pure (reduceLast B σ)) = _
+      rw [ih.1]
+      show (match actOk ((payoffVector A os).shape.getLastD 0) σ with
+          | some e => throw e
+          | none => pure (reduceLast (payoffVector A os) σ)) = _
+      rw [hlast, h.1]
+      rfl
+    · show (reduceLast (payoffVector A os) σ).shape = pre
+      rw [reduceLast_shape, ih.2]; simp
+
+example : (payoffVector exGame.players[0] [Act.mixed [1, 2, 3]]).data = [8, 68] := by decide
+example : actsOk (α := Int) [3] [Act.mixed [1, 2, 3]] := ⟨rfl, trivial⟩
+
+end pv
+
+/-- **payoff_vector, closed form.** Over a commutative (semi)ring, entry `a` of `payoff_vector`
+    is `Σ_{r} (Π_j σ_j(r_j)) · A[a, r]`, the sum ranging over all opponent profiles `r`
+    (`σ_j(b)` = `p[b]` for a mixed action `p`, the indicator of `b = a_j` for a pure one). -/
+theorem payoff_vector_is_expected_sum {K : Type} [CommSemiring K] (A : Arr K) (n0 : Nat)
+    (s : List Nat) (os : List (Act K)) (a : Nat) (hs : A.shape = n0 :: s) (hok : actsOk s os)
+    (ha : a < n0) :
+    (payoffVector A os).get [a] = ((allIdx s).map fun r => weight os r * A.get (a :: r)).sum := by
+  rw [(payoff_vector_is_expectation A n0 s os a hs hok ha).2, expect_eq_sum s os _ hok]
+  rfl
+
+example : (payoffVector (⟨[2, 2, 2], [1, 2, 3, 4, 5, 6, 7, 8]⟩ : Arr Int)
+    [Act.mixed [1, 1], Act.pure 1]).get [1] = 6 + 8 := by decide
+
+/-! ## T1 best responses, Nash, domination are their definitions -/
+
+section order
+variable {K : Type} [Field K] [LinearOrder K] [IsStrictOrderedRing K]
+
+/-- **best_response.** `a` is returned by `best_response(…, tie_breaking=False)` exactly when it
+    is an action whose payoff is within `tol` of every action's payoff. -/
+theorem best_response_spec (v : List K) (tol : K) (a : Nat) :
+    a ∈ bestResponses v tol ↔ a < v.length ∧ ∀ b, b < v.length → v.getD b 0 - tol ≤ v.getD a 0 := by
+  simp only [bestResponses, List.mem_filter, List.mem_range, decide_eq_true_eq]
+  constructor
+  · rintro ⟨ha, h⟩
+    have hv : v ≠ [] := by intro e; simp [e] at ha
+    exact ⟨ha, (max_sub_le_iff v tol _ hv).mp h⟩
+  · rintro ⟨ha, h⟩
+    have hv : v ≠ [] := by intro e; simp [e] at ha
+    exact ⟨ha, (max_sub_le_iff v tol _ hv).mpr h⟩
+
+/-- value of an own action (pure or mixed) against a payoff vector -/
+def ownValue (v : List K) : Act K → K
+  | .pure a => v.getD a 0
+  | .mixed x => dot x v
+
+/-- **is_best_response.** True exactly when the own action's (expected) payoff is within `tol`
+    of every pure action's payoff. -/
+theorem is_best_response_spec (v : List K) (own : Act K) (tol : K) (hv : v ≠ []) :
+    isBestResponseV v own tol = true ↔ ∀ b, b < v.length → v.getD b 0 - tol ≤ ownValue v own := by
+  cases own with
+  | pure a => simp only [isBestResponseV, decide_eq_true_eq, ownValue]; exact max_sub_le_iff v tol _ hv
+  | mixed x => simp only [isBestResponseV, decide_eq_true_eq, ownValue]; exact max_sub_le_iff v tol _ hv
+
+/-- **is_nash.** True exactly when every player's action is a best response (in the sense of
+    `is_best_response_spec`) to the others' actions taken in that player's cyclic order, the payoff
+    vector being the expected payoff of `payoff_vector_is_expectation`. -/
+theorem is_nash_spec (g : Game K) (prof : List (Act K)) (tol : K)
+    (hne : ∀ i, i < g.N → (payoffVector (g.player i) (Game.oppsOf g.N i prof)).data ≠ []) :
+    g.isNash prof tol = true ↔ ∀ i, i < g.N →
+      ∀ b, b < (payoffVector (g.player i) (Game.oppsOf g.N i prof)).data.length →
+        (payoffVector (g.player i) (Game.oppsOf g.N i prof)).data.getD b 0 - tol ≤
+          ownValue (payoffVector (g.player i) (Game.oppsOf g.N i prof)).data
+            (match prof[i]? with | some a => a | none => .pure 0) := by
+  simp only [Game.isNash, List.all_eq_true, List.mem_range]
+  constructor
+  · intro h i hi
+    exact (is_best_response_spec _ _ tol (hne i hi)).mp (h i hi)
+  · intro h i hi
+    exact (is_best_response_spec _ _ tol (hne i hi)).mpr (h i hi)
+
+/-- opponents of player `i` in `is_nash`: the `N = 2` special case of the code
+    (`action_profile[1-i]`) is the same cyclic rule as for `N ≥ 3` -/
+theorem oppsOf_two {β : Type} (prof : List β) (i : Nat) (hl : prof.length = 2) (hi : i < 2) :
+    Game.oppsOf 2 i prof = prof.drop (i + 1) ++ prof.take i := by
+  match prof, hl with
+  | [x, y], _ =>
+    rcases i with _ | _ | i
+    · simp [Game.oppsOf]
+    · simp [Game.oppsOf]
+    · omega
+
+/-- **is_dominated without opponents**: some action pays more than `a` by more than `tol` -/
+theorem is_dominated0_spec (v : List K) (a : Nat) (tol : K) (hv : v ≠ []) :
+    isDominated0 v a tol = true ↔ ∃ b, b < v.length ∧ v.getD a 0 + tol < v.getD b 0 := by
+  simp only [isDominated0, decide_eq_true_eq]
+  obtain ⟨hm, hle⟩ := maxList_spec v hv
+  constructor
+  · intro h
+    obtain ⟨b, hb, e⟩ := List.mem_iff_getElem.mp hm
+    refine ⟨b, hb, ?_⟩
+    rw [List.getD_eq_getElem?_getD (l := v) (i := b), List.getElem?_eq_getElem hb]
+    simp only [Option.getD_some]
+    rw [e]; exact h
+  · rintro ⟨b, hb, h⟩
+    exact lt_of_lt_of_le h (hle _ (getD_mem v b hb))
+
+omit [IsStrictOrderedRing K] in
+/-- **pure-strategy domination** (the LP-free sufficient condition for `is_dominated`):
+    the test is true exactly when another pure action beats `a` by more than `tol` against every
+    in-bounds opponent profile. -/
+theorem is_dominated_by_pure_spec (A : Arr K) (a : Nat) (tol : K) :
+    isDominatedByPure A a tol = true ↔
+      ∃ b, b < A.shape.headD 0 ∧ b ≠ a ∧
+        ∀ r, inBounds A.shape.tail r = true → A.get (a :: r) + tol < A.get (b :: r) := by
+  simp only [isDominatedByPure, List.any_eq_true, List.mem_range, Bool.and_eq_true, bne_iff_ne, ne_eq,
+    List.all_eq_true, decide_eq_true_eq]
+  constructor
+  · rintro ⟨b, hb, hne, h⟩
+    refine ⟨b, hb, hne, ?_⟩
+    intro r hr
+    exact h r (List.mem_of_getElem? (allIdx_flatIndex _ _ hr))
+  · rintro ⟨b, hb, hne, h⟩
+    exact ⟨b, hb, hne, fun r hr => h r (mem_allIdx_inBounds _ _ hr)⟩
+
+example : bestResponses ([3, 5, 4, 5] : List ℚ) 1 = [1, 2, 3] := by decide +kernel
+example : isBestResponseV ([3, 5, 4, 5] : List ℚ) (.mixed [0, 1/2, 1/2, 0]) (1/2) = true := by decide +kernel
+
+end order
+
+/-! ## T1 read-only calls keep the stored payoffs -/
+
+section ro
+variable [Add α] [Sub α] [Mul α] [LT α] [LE α] [DecidableLT α] [DecidableLE α]
+
+/-- the calls that only observe: everything except `set`, `del` and the three reconstructions -/
+def Op.observes : Op α → Bool
+  | .set _ _ | .del _ _ | .delm _ _ | .reprof | .replayers | .gam => false
+  | _ => true
+
+/-- **Observing calls leave the game as it is**: `get`, `payoff_vector`, `best_response`,
+    `is_best_response`, `is_nash`, the domination tests, `payoff_profile_array`, building a
+    dynamics object, and the polymatrix conversion return the very same game (all stored arrays
+    identical), whatever their arguments — including the error paths. -/
+theorem readonly_ops_keep_state (g : Game α) (op : Op α) (h : op.observes = true) :
+    (step g op).1 = g := by
+  cases op <;> first
+    | (simp [Op.observes] at h; done)
+    | (simp only [step]; done)
+    | (simp only [step]; (repeat' split) <;> rfl)
+
+end ro
+
+/-! ## Histories: every call sequence keeps the game well formed; only `set`/`del` change it -/
+
+section hist
+variable [Add α] [Sub α] [Mul α] [LT α] [LE α] [DecidableLT α] [DecidableLE α]
+
+omit [Add α] [Sub α] [Mul α] [LT α] [LE α] [DecidableLT α] [DecidableLE α] in
+theorem nums_eq (g : Game α) (nums : List Nat) (hg : g.WF nums) : g.nums = nums := by
+  unfold Game.nums
+  rw [players_eq g, List.map_map]
+  apply List.ext_getElem
+  · simp [show g.N = nums.length from hg.len]
+  · intro i h1 h2
+    have hi : i < nums.length := h2
+    simp only [List.getElem_map, List.getElem_range, Function.comp]
+    rw [hg.shape i hi, List.headD_eq_head?_getD, List.head?_eq_getElem?, ← List.getD_eq_getElem?_getD,
+      getD_rotL i nums 0 0 (by omega) (by omega), Nat.add_zero, Nat.mod_eq_of_lt hi,
+      List.getD_eq_getElem?_getD, List.getElem?_eq_getElem hi]
+    rfl
+
+/-- the calls that never change a well-formed game: the observing ones and the three
+    reconstructions (`NormalFormGame(g.payoff_profile_array)`, `NormalFormGame(players)`,
+    `from_gam(to_gam(g))`) -/
+def Op.keeps : Op α → Bool
+  | .set _ _ | .del _ _ | .delm _ _ => false
+  | _ => true
+
+/-- **Every call except `__setitem__` and `delete_action` returns the same game**: on a
+    well-formed game with at least one player and one action each, also the reconstructions
+    through the payoff profile array, through the Players and through the GAM numbers give back
+    identical arrays. -/
+theorem keeping_ops_keep_state (g : Game α) (nums : List Nat) (op : Op α) (hg : g.WF nums)
+    (hN : 0 < nums.length) (hpos : prod nums ≠ 0) (h : op.keeps = true) : (step g op).1 = g := by
+  cases op with
+  | set _ _ => simp [Op.keeps] at h
+  | del _ _ => simp [Op.keeps] at h
+  | delm _ _ => simp [Op.keeps] at h
+  | reprof => simp only [step, from_profile_array_roundtrip g nums hg hN]
+  | replayers => simp only [step, from_players_roundtrip g nums hg]
+  | gam => simp only [step, nums_eq g nums hg, gam_roundtrip_tokens g nums hg hN hpos]
+  | _ => exact readonly_ops_keep_state g _ rfl
+
+omit [Add α] [Sub α] [Mul α] [LT α] [LE α] [DecidableLT α] [DecidableLE α] in
+theorem normAxis_some (x : Int) (N ax : Nat) (h : Game.normAxis x N = some ax) (hx : 0 ≤ x) :
+    x = (ax : Int) ∧ ax < N := by
+  unfold Game.normAxis at h
+  split at h
+  · simp only [Option.some.injEq] at h; omega
+  · split at h
+    · omega
+    · simp at h
+
+theorem normIdx_some (n : Nat) (a : Int) (x : Nat) (h : normIdx n a = some x) : x < n := by
+  unfold normIdx at h
+  split at h
+  · simp only [Option.some.injEq] at h; omega
+  · split at h
+    · simp only [Option.some.injEq] at h; omega
+    · simp at h
+
+omit [Add α] [Sub α] [Mul α] [LT α] [LE α] [DecidableLT α] [DecidableLE α] in
+/-- deleting a player's only action is refused (`Player.__init__` raises ValueError) -/
+theorem deleteAction_last (g : Game α) (nums : List Nat) (p a : Nat) (hg : g.WF nums)
+    (hp : p < nums.length) (h1 : nums.getD p 0 = 1) (ha : a < 1) :
+    g.deleteAction (p : Int) a = .error .value := by
+  have hN : g.N = nums.length := hg.len
+  unfold Game.deleteAction
+  dsimp only
+  obtain ⟨m, hm⟩ : ∃ m, g.N = m + 1 := ⟨g.N - 1, by omega⟩
+  rw [hm, List.range_succ_eq_map, List.mapM_cons]
+  have hl : (g.player 0).shape.length = nums.length := by rw [hg.shape 0 (by omega), length_rotL]
+  have hax : (g.player 0).shape.getD (delAxis p nums.length 0) 0 = nums.getD p 0 := by
+    rw [hg.shape 0 (by omega), getD_rotL 0 nums 0 _ (by omega) (delAxis_lt p _ 0 hp (by omega)),
+      delAxis_mod p _ 0 hp (by omega)]
+  have hbad : Game.playerOk ((g.player 0).deleteAxis (delAxis p nums.length 0) a) = false := by
+    have : prod ((g.player 0).deleteAxis (delAxis p nums.length 0) a).shape = 0 := by
+      show prod ((g.player 0).shape.set _ _) = 0
+      rw [hax, h1]
+      by_contra hc
+      have := (prod_ne_zero_iff _).mp hc 0 (by
+        have hlt : delAxis p nums.length 0 < ((g.player 0).shape.set (delAxis p nums.length 0) (1 - 1)).length := by
+          rw [List.length_set, hl]; exact delAxis_lt p _ 0 hp (by omega)
+        have := List.getElem_mem hlt
+        rwa [List.getElem_set_self] at this)
+      exact this rfl
+    simp [Game.playerOk, this]
+  have e : (↑p - ((0 : Nat) : Int)) = (p : Int) - ((0 : Nat) : Int) := rfl
+  simp only [hl, normAxis_sub p nums.length 0 hp (by omega), hax, h1, ha, if_true, hbad]
+  rfl
+
+
+omit [Add α] [Sub α] [Mul α] [LT α] [LE α] [DecidableLT α] [DecidableLE α] in
+theorem normAxis_lt (x : Int) (nd ax : Nat) (h : Game.normAxis x nd = some ax) : ax < nd := by
+  unfold Game.normAxis at h
+  split at h
+  · simp only [Option.some.injEq] at h; omega
+  · split at h
+    · simp only [Option.some.injEq] at h; omega
+    · simp at h
+
+omit [Add α] [Sub α] [Mul α] [LT α] [LE α] [DecidableLT α] [DecidableLE α] in
+/-- whenever `delete_action` with a list of actions succeeds, the result is a well-formed game
+    with the same number of players, every player keeping at least one action -/
+theorem deleteActions_WF (g : Game α) (nums : List Nat) (pidx : Int) (as : List Nat) (g' : Game α)
+    (hg : g.WF nums) (hN : 0 < nums.length) (h : g.deleteActions pidx as = .ok g') :
+    ∃ nums', g'.WF nums' ∧ nums'.length = nums.length ∧ prod nums' ≠ 0 := by
+  have hgN : g.N = nums.length := hg.len
+  unfold Game.deleteActions at h
+  dsimp only at h
+  cases hm : (List.range g.N).mapM (fun (i : Nat) =>
+      match Game.normAxis (pidx - (i : Int)) (g.player i).shape.length with
+      | none => Except.error Err.axis
+      | some ax =>
+        if (as.all fun a => decide (a < (g.player i).shape.getD ax 0)) = true then
+          if Game.playerOk ((g.player i).deleteMany ax as) = true then Except.ok ((g.player i).deleteMany ax as)
+          else Except.error Err.value
+        else Except.error Err.index) with
+  | error e => erw [hm] at h; cases h
+  | ok ps =>
+    erw [hm] at h
+    obtain ⟨rfl, hshapes⟩ := ofPlayers_inv ps g' h
+    obtain ⟨hlen, helem⟩ := mapM_ok_inv _ _ _ hm
+    rw [List.length_range, hgN] at hlen
+    have hfact : ∀ i (hi : i < ps.length), ∃ ax, ax < (g.player i).shape.length ∧
+        ps[i] = (g.player i).deleteMany ax as ∧ Game.playerOk ps[i] = true := by
+      intro i hi
+      have := helem i (by simp; omega) hi
+      simp only [List.getElem_range] at this
+      split at this
+      · cases this
+      · rename_i ax hax
+        split at this
+        · split at this
+          · rename_i hok
+            have e := Except.ok.inj this
+            exact ⟨ax, normAxis_lt _ _ _ hax, e.symm, by rw [← e]; exact hok⟩
+          · cases this
+        · cases this
+    have h0 : 0 < ps.length := by omega
+    obtain ⟨ax0, hax0, hp0, hok0⟩ := hfact 0 h0
+    have hpl : ∀ i (hi : i < ps.length), (Game.mk ps).player i = ps[i] := by
+      intro i hi
+      simp [Game.player, List.getD_eq_getElem?_getD, List.getElem?_eq_getElem hi]
+    have hhead : ps.headD default = ps[0] := by
+      cases ps with
+      | nil => simp at h0
+      | cons x xs => rfl
+    have hs0len : ps[0].shape.length = nums.length := by
+      rw [hp0]
+      show ((g.player 0).shape.set _ _).length = _
+      rw [List.length_set, hg.shape 0 hN, length_rotL]
+    refine ⟨ps[0].shape, ⟨by simp [hlen, hs0len], ?_, ?_⟩, hs0len, ?_⟩
+    · intro i hi
+      have hi' : i < ps.length := by omega
+      rw [hpl i hi']
+      by_cases hz : i = 0
+      · subst hz; rw [rotL_zero]
+      · have := hshapes i hi' hz
+        rw [hhead] at this
+        rw [← this]
+        simp [List.getD_eq_getElem?_getD, List.getElem?_eq_getElem hi']
+    · intro i hi
+      have hi' : i < ps.length := by omega
+      rw [hpl i hi']
+      obtain ⟨ax, _, hp, _⟩ := hfact i hi'
+      rw [hp]
+      exact tab_size _ _
+    · simp only [Game.playerOk, Bool.and_eq_true, bne_iff_ne, ne_eq] at hok0
+      exact hok0.2
+
+/-- **One call keeps the game well formed** (same number of players, every player keeps at
+    least one action), whatever the call and its arguments — valid, malformed or refused. -/
+theorem step_WF (g : Game α) (nums : List Nat) (op : Op α) (hg : g.WF nums)
+    (hN : 0 < nums.length) (hpos : prod nums ≠ 0) :
+    ∃ nums', (step g op).1.WF nums' ∧ nums'.length = nums.length ∧ prod nums' ≠ 0 := by
+  by_cases hk : op.keeps = true
+  · rw [keeping_ops_keep_state g nums op hg hN hpos hk]; exact ⟨nums, hg, rfl, hpos⟩
+  cases op with
+  | set prof vals =>
+    refine ⟨nums, ?_, rfl, hpos⟩
+    simp only [step]
+    repeat' split
+    all_goals first | exact hg | exact setItem_WF g nums _ _ hg
+  | del pidx action =>
+    simp only [step]
+    have hgN : g.N = nums.length := hg.len
+    split
+    · exact ⟨nums, hg, rfl, hpos⟩
+    · rename_i ax hax
+      split
+      · exact ⟨nums, hg, rfl, hpos⟩
+      · rename_i a hnorm
+        have hpid : 0 ≤ (if -(g.N : Int) ≤ pidx ∧ pidx < 0 then pidx + g.N else pidx) ∨
+            (if -(g.N : Int) ≤ pidx ∧ pidx < 0 then pidx + g.N else pidx) < -(g.N : Int) := by
+          split <;> omega
+        rcases hpid with hpid | hpid
+        · obtain ⟨e, haxN⟩ := normAxis_some _ _ _ hax hpid
+          rw [hgN] at haxN
+          have hs0 : (g.player 0).shape = nums := by rw [hg.shape 0 hN, rotL_zero]
+          have ha := normIdx_some _ _ _ hnorm
+          rw [hs0] at ha
+          rw [e]
+          by_cases h2 : 2 ≤ nums.getD ax 0
+          · obtain ⟨g', hd, hwf, _⟩ := delete_action_views g nums ax a hg haxN ha h2 hpos
+            rw [hd]
+            exact ⟨_, hwf, by simp, prod_set_ne_zero nums ax _ hpos (by omega)⟩
+          · rw [deleteAction_last g nums ax a hg haxN (by omega) (by omega)]
+            exact ⟨nums, hg, rfl, hpos⟩
+        · exfalso
+          unfold Game.normAxis at hax
+          rw [if_neg (by omega), if_neg (by omega)] at hax
+          simp at hax
+  | delm pidx actions =>
+    simp only [step]
+    repeat' split
+    all_goals first
+      | exact ⟨nums, hg, rfl, hpos⟩
+      | (rename_i g' hd; exact deleteActions_WF g nums _ _ g' hg hN hd)
+  | _ => simp [Op.keeps] at hk
+
+/-- **Every history keeps the game well formed**: after any sequence of calls (any length), the
+    current game is well formed with the same number of players (induction on the history). -/
+theorem run_WF : ∀ (ops : List (Op α)) (g : Game α) (nums : List Nat), g.WF nums → 0 < nums.length →
+    prod nums ≠ 0 → ∀ og ∈ run g ops, ∃ nums', og.2.WF nums' ∧ nums'.length = nums.length ∧ prod nums' ≠ 0
+  | [], _, _, _, _, _, og, h => by simp [run] at h
+  | op :: ops, g, nums, hg, hN, hpos, og, h => by
+    obtain ⟨nums', hwf, hl, hp⟩ := step_WF g nums op hg hN hpos
+    simp only [run, List.mem_cons] at h
+    rcases h with rfl | h
+    · exact ⟨nums', hwf, hl, hp⟩
+    · obtain ⟨n2, h1, h2, h3⟩ := run_WF ops _ nums' hwf (by omega) hp og h
+      exact ⟨n2, h1, by omega, h3⟩
+
+/-- **No observing or reconstructing call sequence changes the stored payoffs**: if a history
+    contains no `__setitem__` and no `delete_action`, the game after every call of it is the
+    game it started with (induction on the history). -/
+theorem run_keeps_state : ∀ (ops : List (Op α)) (g : Game α) (nums : List Nat), g.WF nums →
+    0 < nums.length → prod nums ≠ 0 → (∀ op ∈ ops, op.keeps = true) → ∀ og ∈ run g ops, og.2 = g
+  | [], _, _, _, _, _, _, og, h => by simp [run] at h
+  | op :: ops, g, nums, hg, hN, hpos, hall, og, h => by
+    have hs := keeping_ops_keep_state g nums op hg hN hpos (hall op List.mem_cons_self)
+    simp only [run, List.mem_cons] at h
+    rcases h with rfl | h
+    · exact hs
+    · rw [hs] at h
+      exact run_keeps_state ops g nums hg hN hpos (fun o ho => hall o (List.mem_cons_of_mem _ ho)) og h
+
+example : (run exGame [Op.gam, Op.reprof, Op.pv 0 [Act.mixed [1, 2, 3]], Op.logit, Op.get [1, -1]]).map (·.2)
+    = [exGame, exGame, exGame, exGame, exGame] := by decide
+example : exGame.WF [2, 3] ∧ 0 < [2, 3].length ∧ prod [2, 3] ≠ 0 := ⟨exGame_WF, by decide, by decide⟩
+
+end hist
+
+/-! ## The calls of the state machine on valid arguments are the core functions -/
+
+section ops
+variable [Add α] [Sub α] [Mul α] [LT α] [LE α] [DecidableLT α] [DecidableLE α]
+
+theorem normIdx_ofNat (n a : Nat) (h : a < n) : normIdx n (a : Int) = some a := by
+  unfold normIdx
+  rw [if_pos (by omega)]
+  simp
+
+/-- a negative index counts from the end, as in NumPy -/
+theorem normIdx_neg (n a : Nat) (h : a < n) : normIdx n ((a : Int) - n) = some a := by
+  unfold normIdx
+  rw [if_neg (by omega), if_pos (by omega)]
+  congr 1
+  omega
+
+theorem normIdxs_ofNat : ∀ (s idx : List Nat), inBounds s idx = true →
+    normIdxs s (idx.map Int.ofNat) = some idx
+  | [], [], _ => rfl
+  | [], _ :: _, h => by simp [inBounds] at h
+  | _ :: _, [], h => by simp [inBounds] at h
+  | n :: s, a :: r, h => by
+    simp only [inBounds, Bool.and_eq_true, decide_eq_true_eq] at h
+    rw [List.map_cons]
+    unfold normIdxs
+    rw [show Int.ofNat a = (a : Int) from rfl, normIdx_ofNat n a h.1, normIdxs_ofNat s r h.2]
+    rfl
+
+/-- `g[profile]` on an in-bounds profile of a game with at least two players -/
+theorem step_get (g : Game α) (nums prof : List Nat) (hg : g.WF nums) (hN : 2 ≤ nums.length)
+    (hp : inBounds nums prof = true) :
+    step g (.get (prof.map Int.ofNat)) = (g, .vals (g.getItem prof)) := by
+  have hgN : g.N = nums.length := hg.len
+  have hs0 : (g.player 0).shape = nums := by rw [hg.shape 0 (by omega), rotL_zero]
+  have hl := inBounds_length _ _ hp
+  simp only [step]
+  rw [if_neg (by omega), if_neg (by simp; omega), hs0, normIdxs_ofNat nums prof hp]
+
+/-- `g[profile] = vals` on an in-bounds profile with one value per player -/
+theorem step_set (g : Game α) (nums prof : List Nat) (vals : List α) (hg : g.WF nums)
+    (hN : 2 ≤ nums.length) (hp : inBounds nums prof = true) (hv : vals.length = nums.length) :
+    step g (.set (prof.map Int.ofNat) vals) = (g.setItem prof vals, .none) := by
+  have hgN : g.N = nums.length := hg.len
+  have hs0 : (g.player 0).shape = nums := by rw [hg.shape 0 (by omega), rotL_zero]
+  have hl := inBounds_length _ _ hp
+  simp only [step]
+  rw [if_neg (by omega), if_neg (by simp; omega), if_neg (by simp; omega), hs0,
+    normIdxs_ofNat nums prof hp]
+
+omit [Add α] [Sub α] [Mul α] [LT α] [LE α] [DecidableLT α] [DecidableLE α] in
+/-- `g[profile]` after `g[profile] = vals` is `vals`, as lists -/
+theorem getItem_setItem (g : Game α) (nums prof : List Nat) (vals : List α) (hg : g.WF nums)
+    (hp : inBounds nums prof = true) (hv : vals.length = nums.length) :
+    (g.setItem prof vals).getItem prof = vals := by
+  have hgN : g.N = nums.length := hg.len
+  apply List.ext_getElem
+  · simp [Game.getItem, setItem_N, hgN, hv]
+  · intro i h1 h2
+    have hi : i < nums.length := by omega
+    have := set_get g nums prof vals i hg hp hi
+    rw [List.getD_eq_getElem?_getD, List.getElem?_eq_getElem h1,
+      List.getD_eq_getElem?_getD, List.getElem?_eq_getElem h2] at this
+    simpa using this
+
+/-- **history form of set/get**: the calls `g[p] = vals; g[p]` return `vals` and leave the game
+    `setItem g p vals` -/
+theorem run_set_get (g : Game α) (nums prof : List Nat) (vals : List α) (hg : g.WF nums)
+    (hN : 2 ≤ nums.length) (hp : inBounds nums prof = true) (hv : vals.length = nums.length) :
+    run g [.set (prof.map Int.ofNat) vals, .get (prof.map Int.ofNat)] =
+      [(.none, g.setItem prof vals), (.vals vals, g.setItem prof vals)] := by
+  simp only [run, step_set g nums prof vals hg hN hp hv,
+    step_get _ nums prof (setItem_WF g nums prof vals hg) hN hp,
+    getItem_setItem g nums prof vals hg hp hv]
+
+end ops
+
+/-! ## Histories, composed: a write persists through any sequence of non-writing calls -/
+
+section persist
+variable [Add α] [Sub α] [Mul α] [LT α] [LE α] [DecidableLT α] [DecidableLE α]
+
+/-- the current game after a history -/
+def exec (g : Game α) (ops : List (Op α)) : Game α := ops.foldl (fun g op => (step g op).1) g
+
+theorem run_append : ∀ (a b : List (Op α)) (g : Game α),
+    run g (a ++ b) = run g a ++ run (exec g a) b
+  | [], _, _ => rfl
+  | op :: a, b, g => by
+    simp only [List.cons_append, run, exec, List.foldl_cons]
+    rw [run_append a b (step g op).1]
+    rfl
+
+theorem exec_keeps : ∀ (ops : List (Op α)) (g : Game α) (nums : List Nat), g.WF nums →
+    0 < nums.length → prod nums ≠ 0 → (∀ op ∈ ops, op.keeps = true) → exec g ops = g
+  | [], _, _, _, _, _, _ => rfl
+  | op :: ops, g, nums, hg, hN, hpos, hall => by
+    simp only [exec, List.foldl_cons]
+    rw [keeping_ops_keep_state g nums op hg hN hpos (hall op List.mem_cons_self)]
+    exact exec_keeps ops g nums hg hN hpos (fun o ho => hall o (List.mem_cons_of_mem _ ho))
+
+/-- **A written payoff profile persists.** After `g[p] = vals`, any sequence (of any length) of
+    calls other than `__setitem__`/`delete_action` — reads, payoff vectors, best responses, Nash and
+    domination tests, profile-array / Players / GAM reconstructions, dynamics objects — and then
+    `g[p]`: the last call returns `vals` and the game is still `setItem g p vals`. -/
+theorem set_persists (g : Game α) (nums prof : List Nat) (vals : List α) (ops : List (Op α))
+    (hg : g.WF nums) (hN : 2 ≤ nums.length) (hpos : prod nums ≠ 0) (hp : inBounds nums prof = true)
+    (hv : vals.length = nums.length) (hall : ∀ op ∈ ops, op.keeps = true) :
+    (run g (.set (prof.map Int.ofNat) vals :: (ops ++ [.get (prof.map Int.ofNat)]))).getLast? =
+      some (.vals vals, g.setItem prof vals) := by
+  have hwf := setItem_WF g nums prof vals hg
+  simp only [run, step_set g nums prof vals hg hN hp hv]
+  rw [run_append, exec_keeps ops _ nums hwf (by omega) hpos hall]
+  simp only [run, step_get _ nums prof hwf hN hp, getItem_setItem g nums prof vals hg hp hv]
+  rw [List.getLast?_cons, List.getLast?_append]
+  rfl
+
+end persist
+
+/-! ## T1 is_nash on pure profiles, in terms of the game's own entries -/
+
+theorem rotL_cons {β : Type} (i : Nat) (l : List β) (d : β) (hi : i < l.length) :
+    rotL i l = l.getD i d :: (l.drop (i + 1) ++ l.take i) := by
+  unfold rotL
+  rw [List.drop_eq_getElem_cons hi, List.getD_eq_getElem?_getD, List.getElem?_eq_getElem hi]
+  rfl
+
+theorem rotL_map {β γ : Type} (f : β → γ) (i : Nat) (l : List β) : rotL i (l.map f) = (rotL i l).map f := by
+  simp [rotL, List.map_drop, List.map_take]
+
+theorem oppsOf_eq {β : Type} (prof : List β) (i : Nat) (hi : i < prof.length) :
+    Game.oppsOf prof.length i prof = prof.drop (i + 1) ++ prof.take i := by
+  by_cases h2 : prof.length = 2
+  · rw [h2]; exact oppsOf_two prof i h2 (by omega)
+  · simp [Game.oppsOf, h2]
+
+section
+variable {α : Type} [Zero α] [Add α] [Mul α]
+
+theorem payoffVector_size (A : Arr α) (os : List (Act α)) (h : A.data.length = prod A.shape) :
+    (payoffVector A os).data.length = prod (payoffVector A os).shape := by
+  cases os with
+  | nil => exact h
+  | cons σ os =>
+    show (reduceLast (payoffVector A os) σ).data.length = prod (reduceLast (payoffVector A os) σ).shape
+    cases σ <;> exact tab_size _ _
+
+/-- the payoff vector as a list: length `n0`, entry `b` the expectation -/
+theorem payoffVector_data (A : Arr α) (n0 : Nat) (s : List Nat) (os : List (Act α))
+    (hs : A.shape = n0 :: s) (hok : actsOk s os) (hsz : A.data.length = prod A.shape) :
+    (payoffVector A os).data.length = n0 ∧
+    ∀ b, b < n0 → (payoffVector A os).data.getD b 0 = expect s os (fun r => A.get (b :: r)) := by
+  have hsize := payoffVector_size A os hsz
+  have hshape := (payoffVectorC_ok os s [n0] A (by simpa using hs) hok).2
+  constructor
+  · rw [hsize, hshape]; simp [prod]
+  · intro b hb
+    rw [← (payoff_vector_is_expectation A n0 s os b hs hok hb).2]
+    unfold Arr.get
+    rw [hshape]
+    simp [flatIndex, prod]
+end
+
+section
+variable {K : Type} [Field K] [LinearOrder K] [IsStrictOrderedRing K]
+
+/-- **is_nash on pure profiles is the textbook definition.** For a well-formed game and an
+    in-bounds pure profile `acts`, `is_nash(acts, tol)` is true exactly when no player `i` gains more
+    than `tol` by switching to any own action `b`: `u_i(acts[i ↦ b]) − tol ≤ u_i(acts)`, where
+    `u_i(q)` is the `i`-th entry of `g[q]` (all `N`, including the code's special cases `N = 1, 2`). -/
+theorem is_nash_pure_is_definition (g : Game K) (nums acts : List Nat) (tol : K) (hg : g.WF nums)
+    (hp : inBounds nums acts = true) :
+    g.isNash (acts.map Act.pure) tol = true ↔
+      ∀ i, i < nums.length → ∀ b, b < nums.getD i 0 →
+        (g.getItem (acts.set i b)).getD i 0 - tol ≤ (g.getItem acts).getD i 0 := by
+  have hgN : g.N = nums.length := hg.len
+  have hl := inBounds_length _ _ hp
+  -- facts about one player
+  have hplayer : ∀ i, i < nums.length →
+      (payoffVector (g.player i) (Game.oppsOf g.N i (acts.map Act.pure))).data.length = nums.getD i 0 ∧
+      (∀ b, b < nums.getD i 0 →
+        (payoffVector (g.player i) (Game.oppsOf g.N i (acts.map Act.pure))).data.getD b 0
+          = (g.getItem (acts.set i b)).getD i 0) ∧
+      (g.getItem acts).getD i 0 = (g.player i).get (acts.getD i 0 :: (acts.drop (i + 1) ++ acts.take i)) ∧
+      acts.getD i 0 < nums.getD i 0 := by
+    intro i hi
+    have hai : acts.getD i 0 < nums.getD i 0 := ((inBounds_iff _ _).mp hp).2 i hi
+    have hshape : (g.player i).shape = nums.getD i 0 :: (nums.drop (i + 1) ++ nums.take i) := by
+      rw [hg.shape i hi]; exact rotL_cons i nums 0 hi
+    have hrb : ∀ b, b < nums.getD i 0 →
+        inBounds (nums.getD i 0 :: (nums.drop (i + 1) ++ nums.take i))
+          (b :: (acts.drop (i + 1) ++ acts.take i)) = true := by
+      intro b hb
+      have h1 := inBounds_rotL i nums acts (by omega) hp
+      rw [rotL_cons i nums 0 hi, rotL_cons i acts 0 (by omega)] at h1
+      simp only [inBounds, Bool.and_eq_true, decide_eq_true_eq] at h1 ⊢
+      exact ⟨hb, h1.2⟩
+    have hr : inBounds (nums.drop (i + 1) ++ nums.take i) (acts.drop (i + 1) ++ acts.take i) = true := by
+      have := hrb _ hai
+      simp only [inBounds, Bool.and_eq_true] at this
+      exact this.2
+    have hopp : Game.oppsOf g.N i (acts.map Act.pure)
+        = (acts.drop (i + 1) ++ acts.take i).map (Act.pure (α := K)) := by
+      have := oppsOf_eq (acts.map (Act.pure (α := K))) i (by simp; omega)
+      rw [List.length_map, hl, ← hgN] at this
+      rw [this]; simp [List.map_drop, List.map_take]
+    have hdata := payoffVector_data (g.player i) (nums.getD i 0) _ _ hshape
+      (actsOk_pure (α := K) _ _ hr) (hg.size i hi)
+    rw [← hopp] at hdata
+    have hset : ∀ b, rotL i (acts.set i b) = b :: (acts.drop (i + 1) ++ acts.take i) := by
+      intro b
+      rw [rotL_cons i _ 0 (by simp; omega), getD_set acts i i b 0 (by omega), if_pos rfl,
+        List.drop_set_of_lt (by omega), List.take_set_of_le (by omega)]
+    refine ⟨hdata.1, ?_, ?_, hai⟩
+    · intro b hb
+      rw [hdata.2 b hb, hopp, expect_pure _ _ _ (inBounds_length _ _ hr),
+        getItem_getD _ _ _ (by omega), hset b]
+    · rw [getItem_getD _ _ _ (by omega), rotL_cons i acts 0 (by omega)]
+  rw [is_nash_spec g _ tol (by
+    intro i hi
+    have := (hplayer i (by omega)).1
+    have hpos := (hplayer i (by omega)).2.2.2
+    intro e
+    rw [e, List.length_nil] at this
+    omega)]
+  rw [hgN] at hplayer ⊢
+  constructor
+  · intro h i hi b hb
+    obtain ⟨h1, h2, h3, h4⟩ := hplayer i hi
+    have := h i hi b (by rw [h1]; exact hb)
+    rw [h2 b hb] at this
+    have hown : (acts.map (Act.pure (α := K)))[i]? = some (Act.pure (acts.getD i 0)) := by
+      rw [List.getElem?_map, List.getD_eq_getElem?_getD, List.getElem?_eq_getElem (by omega)]
+      rfl
+    rw [hown] at this
+    simp only [ownValue] at this
+    rw [h2 _ h4] at this
+    have e : acts.set i (acts.getD i 0) = acts := by
+      rw [List.getD_eq_getElem?_getD, List.getElem?_eq_getElem (by omega)]
+      simp
+    rwa [e] at this
+  · intro h i hi b hb
+    obtain ⟨h1, h2, h3, h4⟩ := hplayer i hi
+    rw [h1] at hb
+    have := h i hi b hb
+    have hown : (acts.map (Act.pure (α := K)))[i]? = some (Act.pure (acts.getD i 0)) := by
+      rw [List.getElem?_map, List.getD_eq_getElem?_getD, List.getElem?_eq_getElem (by omega)]
+      rfl
+    rw [hown]
+    simp only [ownValue]
+    rw [h2 b hb, h2 _ h4]
+    have e : acts.set i (acts.getD i 0) = acts := by
+      rw [List.getD_eq_getElem?_getD, List.getElem?_eq_getElem (by omega)]
+      simp
+    rwa [e]
+end
+
+
+example : exGame.isNash ([1, 2].map Act.pure) 0 = true ∧ exGame.isNash ([0, 2].map Act.pure) 0 = false := by
+  decide
+
+/-! ## T2 polymatrix → normal form -/
+
+section poly
+variable [Add α]
+
+theorem ofPolymatrix_player (nums : List Nat) (pm : Nat → Nat → List α) (i : Nat) (hi : i < nums.length) :
+    (ofPolymatrix nums pm).player i = polyPlayer nums pm i := by
+  simp [ofPolymatrix, Game.player, List.getD_eq_getElem?_getD, List.getElem?_map, List.getElem?_range hi]
+
+/-- `PolymatrixGame.to_nfg` builds a well-formed game -/
+theorem ofPolymatrix_WF (nums : List Nat) (pm : Nat → Nat → List α) : (ofPolymatrix nums pm).WF nums := by
+  refine ⟨by simp [ofPolymatrix], ?_, ?_⟩
+  · intro i hi; rw [ofPolymatrix_player nums pm i hi]; rfl
+  · intro i hi; rw [ofPolymatrix_player nums pm i hi]; exact tab_size _ _
+
+/-- **polymatrix views.** In the normal-form game built from a polymatrix, player `i`'s payoff at
+    a profile is the sum, over the other players `o = i+1, …, i-1` (cyclically, in this order of
+    addition), of the head-to-head entry `polymatrix[(i, o)][profile[i], profile[o]]`. -/
+theorem polymatrix_views (nums : List Nat) (pm : Nat → Nat → List α) (prof : List Nat) (i : Nat)
+    (hp : inBounds nums prof = true) (hi : i < nums.length) :
+    ((ofPolymatrix nums pm).getItem prof).getD i 0 =
+      (List.range (nums.length - 1)).foldl (fun acc j =>
+        acc + (pm i ((i + 1 + j) % nums.length)).getD
+          (prof.getD i 0 * nums.getD ((i + 1 + j) % nums.length) 0
+            + prof.getD ((i + 1 + j) % nums.length) 0) 0) 0 := by
+  have hl := inBounds_length _ _ hp
+  rw [getItem_getD _ _ _ (by simpa [ofPolymatrix, Game.N] using hi), ofPolymatrix_player nums pm i hi]
+  unfold polyPlayer
+  rw [get_tab _ _ _ (inBounds_rotL i nums prof (by omega) hp)]
+  apply foldl_congr_range
+  intro acc j hj
+  have e0 : (rotL i prof).getD 0 0 = prof.getD i 0 := by
+    rw [getD_rotL i prof 0 0 (by omega) (by omega), Nat.add_zero, hl, Nat.mod_eq_of_lt hi]
+  have e1 : (rotL i prof).getD (j + 1) 0 = prof.getD ((i + 1 + j) % nums.length) 0 := by
+    rw [getD_rotL i prof 0 (j + 1) (by omega) (by omega), hl]
+    congr 2; omega
+  have e2 : ((rotL (i + 1) (List.range nums.length)).take (nums.length - 1)).getD j 0
+      = (i + 1 + j) % nums.length := by
+    rw [List.getD_eq_getElem?_getD, List.getElem?_take, if_pos hj, ← List.getD_eq_getElem?_getD,
+      getD_rotL (i + 1) _ 0 j (by simp; omega) (by simp; omega)]
+    simp only [List.length_range]
+    rw [List.getD_eq_getElem?_getD, List.getElem?_range (Nat.mod_lt _ (by omega))]
+    rfl
+  simp only [e0, e1, e2]
+
+example : ((ofPolymatrix [2, 2, 2] (fun i j => [100 * i + 10 * j, 100 * i + 10 * j + 1,
+    100 * i + 10 * j + 2, 100 * i + 10 * j + 3] : Nat → Nat → List Int)).getItem [1, 0, 1]) =
+    [12 + 23, 121 + 101, 203 + 212] := by decide
+
+end poly
+
+/-! ## T2 mixed-strategy domination through a checked certificate -/
+
+section cert
+variable {K : Type} [Field K] [LinearOrder K] [IsStrictOrderedRing K]
+open Finset
+
+/-- **Certificate of the domination value.** If `domCertOk A a x y v` accepts (and `y` is a
+    probability vector over the opponent profiles), then `v` is the value of the zero-sum game
+    "`A[b, ·] − A[a, ·]` over the own actions `b ≠ a`": the mix `x` beats `a` by at least `v`
+    against every opponent profile, and no mix `x'` beats `a` by more than `v` against every
+    profile. Hence "`a` is strictly dominated by a mixed action with margin `tol`" holds exactly
+    when `tol < v`, which is what the `domcert` call of the state machine answers. -/
+theorem dom_cert_value (A : Arr K) (a : Nat) (x y : List K) (v : K)
+    (hc : domCertOk A a x y v = true) (hy0 : ∀ k, 0 ≤ y.getD k 0)
+    (hy1 : ∑ k ∈ range (allIdx A.shape.tail).length, y.getD k 0 = 1) :
+    (∀ r, inBounds A.shape.tail r = true →
+      v ≤ ∑ k ∈ range ((List.range (A.shape.headD 0)).filter (· != a)).length,
+        x.getD k 0 * (A.get (((List.range (A.shape.headD 0)).filter (· != a)).getD k 0 :: r) - A.get (a :: r))) ∧
+    (∀ x' : Nat → K, (∀ k, 0 ≤ x' k) →
+      ∑ k ∈ range ((List.range (A.shape.headD 0)).filter (· != a)).length, x' k = 1 →
+      ∃ r, inBounds A.shape.tail r = true ∧
+        ∑ k ∈ range ((List.range (A.shape.headD 0)).filter (· != a)).length,
+          x' k * (A.get (((List.range (A.shape.headD 0)).filter (· != a)).getD k 0 :: r) - A.get (a :: r)) ≤ v) := by
+  unfold domCertOk at hc
+  simp only [Bool.and_eq_true, List.all_eq_true, decide_eq_true_eq, foldl_eq_finset_sum] at hc
+  obtain ⟨h1, h2⟩ := hc
+  constructor
+  · intro r hr
+    exact h1 r (List.mem_of_getElem? (allIdx_flatIndex _ _ hr))
+  · intro x' hx0 hx1
+    obtain ⟨j, hj, hle⟩ := weak_duality _ (allIdx A.shape.tail).length
+      (fun k j => A.get (((List.range (A.shape.headD 0)).filter (· != a)).getD k 0 :: (allIdx A.shape.tail).getD j [])
+        - A.get (a :: (allIdx A.shape.tail).getD j []))
+      (fun k => y.getD k 0) x' v (fun j _ => hy0 j) hy1
+      (by
+        intro i hi
+        have hm : ((List.range (A.shape.headD 0)).filter (· != a)).getD i 0 ∈
+            (List.range (A.shape.headD 0)).filter (· != a) := by
+          rw [List.getD_eq_getElem?_getD, List.getElem?_eq_getElem hi]
+          exact List.getElem_mem hi
+        exact h2 _ hm)
+      (fun k _ => hx0 k) hx1
+    refine ⟨(allIdx A.shape.tail).getD j [], ?_, hle⟩
+    apply mem_allIdx_inBounds
+    rw [List.getD_eq_getElem?_getD, List.getElem?_eq_getElem hj]
+    exact List.getElem_mem hj
+
+example : domCertOk (⟨[3, 2], [0, 0, 3, -1, -1, 3]⟩ : Arr ℚ) 0 [1/2, 1/2] [1/2, 1/2] 1 = true := by
+  decide +kernel
+
+end cert
 
 end QE.C14
